@@ -493,6 +493,20 @@ class FSpec:
         pass
 
 
+def operand_arity(o):
+    return o if isinstance(o, int) else o[1]
+
+
+def chain_mismatch(base, operands):
+    """documented: every query of a set operation selects the same number of terms -- at any depth"""
+    for o in operands:
+        if operand_arity(o) != base:
+            return True
+        if not isinstance(o, int) and chain_mismatch(o[1], [sub for _, sub in o[2]]):
+            return True
+    return False
+
+
 class SSpec:
     def __init__(self, base):
         self.base, self.ops = base, []
@@ -501,7 +515,7 @@ class SSpec:
         return True
 
     def predict(self, c):
-        if c[0] == "render" and any(n != self.base for n in self.ops):
+        if c[0] == "render" and chain_mismatch(self.base, self.ops):
             return "set_operation_arity", SE
         return None
 
